@@ -623,6 +623,10 @@ def b_list(eng, args, kwargs, fr, node):
 def b_dict(eng, args, kwargs, fr, node):
     if not args and not kwargs:
         return V(('dict', ANY, ANY), None)
+    if not args:
+        # dict(k=v, ...): only ever passed on as keyword bundles (callbackKeywords=...); kept as an opaque bundle
+        from .engine import PyObj
+        return PyObj('kwbundle', dict(kwargs))
     raise_unsupported('dict() with arguments')
 
 
